@@ -13,7 +13,7 @@ Additional subset:
     a finite List), `s.tail`; on a List: `.takeWhile(_ > c).sum` / `.sum`.  `.takeWhile(_ > c)` is accepted ONLY when `c` is a val
     whose initialiser is `1.0e-16`, `<expr> * 1.0e-16` or `<expr> * 0.5e-16` (a round-off cut-off); the cut-off expression is still
     evaluated (it forces a stream element) but the exact model keeps every term (l_cut is the identity): cut-offs are IGNORED.
-  * Double literals with an exponent (`1.0e-16`) as exact fractions; `D_==(a, b)` with two arguments as exact equality.
+  * Double literals with an exponent (`1.0e-16`) as exact fractions.
 Everything else raises TieBroken (fail closed).
 """
 from __future__ import annotations
